@@ -9,11 +9,12 @@
    which normal form, the date / datetime precision rule, the flattening of include / exclude,
    the error cases, and that rows are the engine's output (no omission, addition or reordering).
 
-   Full statement of the property, NOT provable for the code as it is (see the _refuted lemmas
-   and KNOWN_FINDINGS K15a-K15e): "for every start zone the emitted values are the RFC 5545
-   occurrences in the start's zone, united with the include dates and minus the exclude dates
-   taken at the start's wall time in the start's zone, up to `until` as an instant; dates for a
-   date-precision start also under for_each".                                              *)
+   The zone defects K15a, K15b, K15c, K15e (include/exclude dates and `until` relabelled UTC, a
+   datetime `until` losing its time, naive include/exclude datetimes) are repaired in /repo; the
+   model is the repaired code, their former _refuted lemmas are regression Examples below, and
+   C15_date_leaf_in_start_zone / C15_until_normal_forms / C15_leaf_dates_aware now hold for every
+   zone.  Still NOT provable for the code as it is (KNOWN_FINDINGS K15d, _refuted lemma below):
+   "a date-precision start yields dates also under for_each".                               *)
 From Coq Require Import ZArith List Bool String Sorted.
 From SFV Require Import Base Schedule.
 From SFV.P Require Import ScheduleP.
@@ -120,25 +121,52 @@ Theorem C15_special_cases_in_wire : forall P now a r p sp,
 Proof. exact specials_in_wire. Qed.
 Print Assumptions C15_special_cases_in_wire.
 
-(* what each kind of leaf becomes: a nested rule's rule set, a datetime unchanged, a date (or a
-   date string) at the start's time of day — labelled UTC (see C15_exclude_date_zone_refuted) *)
+(* what each kind of leaf becomes: a nested rule's rule set, a datetime (naive = UTC), a date (or
+   a date string) at the start's time of day in the start's zone *)
 Theorem C15_leaf_calls : forall P start mr md,
   (forall rs, leaf_call P start mr md (ARule rs) = Ok (CSet mr rs)) /\
-  (forall t, leaf_call P start mr md (ADateTime t) = Ok (CDate md t)) /\
-  (forall d, leaf_call P start mr md (ADate d) = Ok (CDate md (mkDT d (d_us start) (Some 0)))) /\
+  (forall t, leaf_call P start mr md (ADateTime t) = Ok (CDate md (ensure_tz t))) /\
+  (forall d, leaf_call P start mr md (ADate d) = Ok (CDate md (mkDT d (d_us start) (d_tz start)))) /\
   (forall s t, P s = Ok t ->
-               leaf_call P start mr md (AStr s) = Ok (CDate md (mkDT (d_days t) (d_us start) (Some 0)))) /\
+               leaf_call P start mr md (AStr s) = Ok (CDate md (mkDT (d_days t) (d_us start) (d_tz start)))) /\
   (forall a, match a with ARule _ | ADateTime _ | ADate _ | AStr _ | ASeq _ _ => False | _ => True end ->
              leaf_call P start mr md a = Err (Internal "TypeError")).
 Proof. exact leaf_calls. Qed.
 Print Assumptions C15_leaf_calls.
 
-(* ... which is the start's own zone when the start is in UTC *)
-Theorem C15_date_leaf_utc_partial : forall P start mr md d,
-  d_tz start = Some 0 ->
-  leaf_call P start mr md (ADate d) = Ok (CDate md (mkDT d (d_us start) (d_tz start))).
-Proof. exact date_leaf_utc_partial. Qed.
-Print Assumptions C15_date_leaf_utc_partial.
+(* For EVERY zone: a date leaf differs from the start only in the day — it is the instant of the
+   occurrence of that day at the start's wall time (a whole number of days after the start). *)
+Theorem C15_date_leaf_in_start_zone : forall P start mr md d,
+  leaf_call P start mr md (ADate d) = Ok (CDate md (mkDT d (d_us start) (d_tz start))) /\
+  forall off, instant off (mkDT d (d_us start) (d_tz start)) - instant off start
+              = (d - d_days start) * US_PER_DAY.
+Proof. exact date_leaf_in_start_zone. Qed.
+Print Assumptions C15_date_leaf_in_start_zone.
+
+(* no naive value reaches rdate / exdate *)
+Theorem C15_leaf_dates_aware : forall P start mr md a m x,
+  d_tz start <> None ->
+  leaf_call P start mr md a = Ok (CDate m x) -> d_tz x <> None.
+Proof. exact leaf_dates_aware. Qed.
+Print Assumptions C15_leaf_dates_aware.
+
+(* until: a date (or date string) is that day at the start's wall time in the start's zone; a
+   datetime or datetime string is the instant it denotes (naive = UTC); nothing is relabelled *)
+Theorem C15_until_normal_forms : forall P start,
+  (forall a, truthy a = false -> norm_until P start a = Ok None) /\
+  (forall d, norm_until P start (ADate d) = Ok (Some (ensure_tz (mkDT d (d_us start) (d_tz start))))) /\
+  (forall t, norm_until P start (ADateTime t) = Ok (Some (ensure_tz t))) /\
+  (forall s t, s <> EmptyString -> is_datetime s = true -> parse_dts P s = Ok t ->
+               norm_until P start (AStr s) = Ok (Some t)) /\
+  (forall s t, s <> EmptyString -> is_datetime s = false -> P s = Ok t ->
+               norm_until P start (AStr s) = Ok (Some (ensure_tz (mkDT (d_days t) (d_us start) (d_tz start))))).
+Proof. exact until_normal_forms. Qed.
+Print Assumptions C15_until_normal_forms.
+
+Theorem C15_until_keeps_aware_datetime : forall P start t off,
+  d_tz t = Some off -> norm_until P start (ADateTime t) = Ok (Some t).
+Proof. exact until_keeps_aware_datetime. Qed.
+Print Assumptions C15_until_keeps_aware_datetime.
 
 (* error cases *)
 Theorem C15_undocumented_rejected : forall P now a fq,
@@ -228,7 +256,7 @@ Theorem C15_for_each_emits_exactly_partial :
 Proof. exact for_each_emits_exactly. Qed.
 Print Assumptions C15_for_each_emits_exactly_partial.
 
-(* ---------------------------------------------------------------- refutations (KNOWN_FINDINGS K15a-K15d) *)
+(* ---------------------------------------------------------------- repaired defects: regression examples *)
 
 Definition no_parser : parser := fun _ => Err BadOracle.
 Definition mk_args (freq : string) (start : arg) (until exclude : option arg) : sched_args :=
@@ -238,46 +266,40 @@ Definition mk_args (freq : string) (start : arg) (until exclude : option arg) : 
 (* 2023-03-01 has proleptic ordinal 738580 *)
 Definition start_0530 : dt := mkDT 738580 36000000000 (Some 19800).   (* 2023-03-01 10:00:00+05:30 *)
 
-(* K15a: start 10:00 +05:30, exclude 2023-03-02: the exdate handed to the engine is 10:00 UTC,
-   a different instant from the occurrence 2023-03-02 10:00 +05:30 it is meant to remove *)
-Theorem C15_exclude_date_zone_refuted :
-  exists a r p x,
-    wire no_parser (mkDT 0 0 None) a = Ok (r, p, [CDate MExDate x]) /\
-    r_dtstart r = start_0530 /\
-    d_days x = 738581 /\ d_us x = d_us start_0530 /\
-    instant 0 x <> instant 19800 (mkDT 738581 (d_us start_0530) (Some 19800)).
-Proof.
-  exists (mk_args "daily" (ADateTime start_0530) None (Some (ADate 738581))).
-  eexists. eexists. eexists. split; [vm_compute; reflexivity|].
-  vm_compute. repeat split; discriminate.
-Qed.
-Print Assumptions C15_exclude_date_zone_refuted.
+(* K15a (repaired): start 10:00 +05:30, exclude 2023-03-02: the exdate handed to the engine is the
+   occurrence 2023-03-02 10:00 +05:30 itself (it used to be 10:00 UTC, another instant) *)
+Example C15_exclude_date_zone_regression :
+  exists r p,
+    wire no_parser (mkDT 0 0 None) (mk_args "daily" (ADateTime start_0530) None (Some (ADate 738581)))
+    = Ok (r, p, [CDate MExDate (mkDT 738581 36000000000 (Some 19800))]) /\ r_dtstart r = start_0530.
+Proof. eexists. eexists. split; vm_compute; reflexivity. Qed.
 
-(* K15b: start 10:00 -08:00, until 2023-03-04 (date): the until handed to the engine is
-   2023-03-04 10:00 UTC, EARLIER than the occurrence 2023-03-04 10:00 -08:00 of that day *)
-Theorem C15_until_zone_refuted :
-  exists a r p u,
-    wire no_parser (mkDT 0 0 None) a = Ok (r, p, []) /\ r_until r = Some u /\
-    instant 0 u < instant (-28800) (mkDT 738583 36000000000 (Some (-28800))).
-Proof.
-  exists (mk_args "daily" (ADateTime (mkDT 738580 36000000000 (Some (-28800)))) (Some (ADate 738583)) None).
-  eexists. eexists. eexists. split; [vm_compute; reflexivity|].
-  split; [vm_compute; reflexivity | vm_compute; reflexivity].
-Qed.
-Print Assumptions C15_until_zone_refuted.
+(* K15b (repaired): start 10:00 -08:00, until 2023-03-04 (date): until is 2023-03-04 10:00 -08:00,
+   the occurrence of that day (it used to be 10:00 UTC, eight hours earlier) *)
+Example C15_until_zone_regression :
+  exists r p,
+    wire no_parser (mkDT 0 0 None)
+         (mk_args "daily" (ADateTime (mkDT 738580 36000000000 (Some (-28800)))) (Some (ADate 738583)) None)
+    = Ok (r, p, []) /\ r_until r = Some (mkDT 738583 36000000000 (Some (-28800))).
+Proof. eexists. eexists. split; vm_compute; reflexivity. Qed.
 
-(* K15c: until given as the datetime 2023-03-01 13:00 with an hourly rule starting 10:00:
-   the engine receives until = 10:00 *)
-Theorem C15_until_time_refuted :
-  exists a r p,
-    wire no_parser (mkDT 0 0 None) a = Ok (r, p, []) /\
-    r_until r = Some (mkDT 738580 36000000000 (Some 0)).
-Proof.
-  exists (mk_args "hourly" (ADateTime (mkDT 738580 36000000000 None))
-                  (Some (ADateTime (mkDT 738580 46800000000 None))) None).
-  eexists. eexists. split; vm_compute; reflexivity.
-Qed.
-Print Assumptions C15_until_time_refuted.
+(* K15c (repaired): until given as the datetime 2023-03-01 13:00 with an hourly rule starting
+   10:00: the engine receives 13:00 (it used to receive 10:00) *)
+Example C15_until_time_regression :
+  exists r p,
+    wire no_parser (mkDT 0 0 None)
+         (mk_args "hourly" (ADateTime (mkDT 738580 36000000000 None))
+                  (Some (ADateTime (mkDT 738580 46800000000 None))) None)
+    = Ok (r, p, []) /\ r_until r = Some (mkDT 738580 46800000000 (Some 0)).
+Proof. eexists. eexists. split; vm_compute; reflexivity. Qed.
+
+(* K15e (repaired): a naive datetime in include reaches rdate as a UTC value *)
+Example C15_naive_include_regression :
+  specials no_parser start_0530 MRRule MRDate (ASeq false [ADateTime (mkDT 738581 43200000000 None)])
+  = Ok [CDate MRDate (mkDT 738581 43200000000 (Some 0))].
+Proof. vm_compute. reflexivity. Qed.
+
+(* ---------------------------------------------------------------- refutation (KNOWN_FINDINGS K15d) *)
 
 (* K15d: under for_each a date-precision rule yields datetimes *)
 Theorem C15_for_each_precision_refuted :
